@@ -702,7 +702,7 @@ def targets(tier):
             strategy=lambda tier: verify_cases(),
             budget={"quick": 1000, "thorough": 20000},
             required=[
-                "expect-accept", "expect-reject",
+                "expect-accept", "expect-reject", "nt:after-pubkey-of-both-lifts",
                 "ref:ok", "ref:pk-length", "ref:sig-length", "ref:pk-ge-p", "ref:pk-not-on-curve", "ref:r-ge-p", "ref:s-ge-n",
                 "ref:R-infinite", "ref:R-odd-y", "ref:Rx-ne-r",
                 "nt:sig-63-bytes-s-leading-zero", "nt:pk-31-bytes", "nt:pk-33-bytes", "nt:sig-65-bytes", "nt:sig-63-bytes",
